@@ -8,7 +8,24 @@ from __future__ import annotations
 
 from functools import lru_cache
 
+import codecs
+
 ENCODINGS = ("utf-8", "ascii", "latin-1")
+# other spellings of the same three encodings, as locale.getpreferredencoding() really returns them
+ALIASES = ("UTF-8", "utf8", "ANSI_X3.4-1968", "US-ASCII", "ISO-8859-1", "latin1")
+_CANON = {}
+
+
+def canon(enc):
+    """'utf-8' / 'ascii' / 'latin-1' for any spelling of these encodings"""
+    c = _CANON.get(enc)
+    if c is None:
+        name = codecs.lookup(enc).name
+        c = {"utf-8": "utf-8", "ascii": "ascii", "iso8859-1": "latin-1"}.get(name)
+        if c is None:
+            raise ValueError(enc)
+        _CANON[enc] = c
+    return c
 
 
 class Tables:
@@ -82,6 +99,7 @@ def utf8_class(b: bytes) -> str:
 
 
 def char_class(b: bytes, enc: str) -> str:
+    enc = canon(enc)
     if enc == "utf-8":
         return utf8_class(b)
     if enc == "ascii":
@@ -120,7 +138,7 @@ def is_token(b: bytes, enc: str, last_of_read: bool) -> bool:
     if char_class(b, enc) == "char":
         return True
     if b in T.table:
-        if enc == "utf-8" and len(b) == 1 and b[0] >= 0x80:
+        if canon(enc) == "utf-8" and len(b) == 1 and b[0] >= 0x80:
             return last_of_read
         return True
     return False
